@@ -5,7 +5,7 @@ import json, subprocess, os
 CHECKS = {
  # id: (technique, level text, level note, design ref)
  "C01": ("property-based testing: generated games x profiles against an exhaustive pure-strategy best-response oracle (cross-checked with a sequence-form oracle); proptest shrinking",
-         "Exploration: every generated (game, profile) pair is evaluated by the library and by two independent oracles (path enumeration; exhaustive best response over all pure strategies, cross-checked against a sequence-form best response). A mismatch beyond 1e-9 relative is a violation. Evidence, not proof.",
+         "Exploration: every generated (game, profile) pair is evaluated by the library and by two independent oracles (path enumeration; exhaustive best response over all pure strategies, cross-checked against a sequence-form best response). Half of the cases continue with an evaluation history (evaluate again, clone, re-import, truncate) on one Strategies object, re-checked after every step. A mismatch beyond 1e-9 relative is a violation. Evidence, not proof.",
          "Trusted: the harness's oracles (two structurally different best-response computations that must agree on every small case), IEEE arithmetic within 1e-9 relative.", "3/C01"),
  "C02": ("property-based testing: generated (game, T, threshold, threads) with vanilla Full solve; oracle = returned total bound >= true total regret from an independent best-response oracle; plus a hill-climbing (targeted PBT) search maximising regret/bound",
          "Exploration: the theorem's inequality is checked on every generated configuration, including thresholds placed at/around the bound values of the run and 2..16 threads; a targeted search pushes the ratio true/bound towards 1 so that a weakened bound is caught.",
@@ -28,7 +28,7 @@ CHECKS = {
  "C08": ("model-based property-based testing: an independent reference implementation of discounted CFR (full, chance-sampled, external-sampled) on the harness's abstract tree, fed the same sampling decisions, compared with the library's strategies",
          "Exploration against an executable specification: strategies must agree within 1e-6 at every infoset for generated (game, method, parameter tuple, T, decision function); preset constants and the default are compared with the documented tuples.",
          "Trusted: the reference model (self-tested on the pinned example and against the CFR bound); comparisons stop at the first iteration whose regret-matching branch is within 1e-9 of a discontinuity.", "3/C08"),
- "C09": ("property-based testing with a prefix-run oracle: solve(m,N,r) must equal bitwise the threshold-free run with budget t* computed from the bounds of all prefix runs; thresholds placed at, just below and just above every bound value",
+ "C09": ("property-based testing with a prefix-run oracle: solve(m,N,r) must equal bitwise the threshold-free run with budget t* computed from the bounds of all prefix runs; thresholds placed at, just below and just above every bound value; huge budgets (u64::MAX ...) and 2..8 threads compared with the one-thread prefix run",
          "Exploration: single-threaded runs under hook-fixed decisions are bit-deterministic, so the oracle is exact equality with the prefix run; boundary thresholds are generated with next_up/next_down.",
          "Trusted: determinism of single-threaded runs (re-checked in every case).", "3/C09"),
  "C10": ("property-based testing of the categorical sampler with a mock generator (chosen variates around every cumulative boundary), draw-log conformance against the reference model, and fixed-seed chi-square / martingale tests of the production samplers",
@@ -63,6 +63,8 @@ CHECKS = {
          "Trusted: positivity demanded only for differences > 1e-6 and p <= 10.", "3/C19"),
 }
 
+FUZZABLE = ["C01", "C08", "C09", "C11", "C12", "C13", "C14", "C18", "C19"]
+
 def main():
     here = os.path.dirname(os.path.dirname(os.path.abspath(__file__)))
     props = [json.loads(l) for l in open(os.path.join(here, "properties.jsonl"))]
@@ -83,6 +85,8 @@ def main():
             "add_only": True,
         },
         "engines": [
+            {"name": "libfuzzer-prop", "path": "/verif/harness/fuzz", "serves_properties": FUZZABLE,
+             "kind_free_text": "cargo-fuzz / libFuzzer target (thorough tier only): coverage-guided mutation of the same choice-stream bytes, decoded by the same decoder and judged by the same property function inside the target; 16 processes with fixed -runs and -seed; failures are written as the same replay files"},
             {"name": "verif-harness", "path": "/verif/harness", "serves_properties": sorted(CHECKS.keys()),
              "kind_free_text": "Rust binary: proptest TestRunner (library mode, fixed seeds, 16 fixed partitions) over a byte choice-stream decoder; independent oracles (path enumeration, exhaustive and sequence-form best response, contract validator, reference discounted CFR); shrinking to a minimal byte string that is the replay file"},
         ],
@@ -103,7 +107,7 @@ def main():
                 "engine": "verif-harness",
                 "level_claimed": {"category": "exploration", "text": text, "design_ref": f"DESIGN.md section {ref}"},
                 "level_note": note,
-                "technique": tech,
+                "technique": tech + ("; thorough tier adds coverage-guided fuzzing (libFuzzer) of the same decoder and oracle" if pid in FUZZABLE else ""),
             })
         else:
             manifest["not_applicable"].append({"property_id": pid, "reason": pending_reason})
